@@ -274,7 +274,7 @@ mod verif_c04t {
     /// Text (bounded): per-character spacing fills, decorations and the per-line loop all propagate the
     /// k-th target error with `?`: Err(k) is returned, nothing is called afterwards, the calls before it
     /// are those of the fault-free run. (A font with an empty atlas: glyph images make no target call.)
-    //@harness prop=C04 kind=bounded tier=quick class=P bound="text \"ab\\nc\" (two lines), symbolic metrics, background + underline + strikethrough; all k <= 8" timeout=900 fns=src/text/text.rs::Text::draw;src/mono_font/mono_text_style.rs::MonoTextStyle::draw_string;src/mono_font/mono_text_style.rs::MonoTextStyle::draw_string_binary;src/mono_font/mono_text_style.rs::MonoTextStyle::draw_decorations
+    //@harness prop=C04 kind=bounded tier=quick class=P bound="text 'ab\\nc' (two lines), symbolic metrics, background + underline + strikethrough; all k <= 8" timeout=900 fns=src/text/text.rs::Text::draw;src/mono_font/mono_text_style.rs::MonoTextStyle::draw_string;src/mono_font/mono_text_style.rs::MonoTextStyle::draw_string_binary;src/mono_font/mono_text_style.rs::MonoTextStyle::draw_decorations
     #[kani::proof]
     #[kani::unwind(10)]
     fn c04_text_fault_at_k() {
